@@ -10,7 +10,7 @@ namespace verif {
 
 std::string g_out;
 std::string g_abort_note;
-type_id g_obj_static_id = 0;
+type_id g_obj_static_id = static_cast<type_id>(-2); // none
 type_id g_id_table[kIdFns];
 type_id g_tag_ids[kTags];
 template<int... I>
